@@ -26,7 +26,7 @@ ASSUMPTIONS = [
     "ratios and cell sums judged with 1e-4, centres and rigid offsets with 1e-6 x die size, cell geometry with 1e-9 relative",
     "total module area is kept below ~60% of the refinable area so that instances are usually feasible",
 ]
-CASES = {"quick": 320, "thorough": 6000}
+CASES = {"quick": 320, "thorough": 20000}
 MIN_CASES = {"quick": 80, "thorough": 1500}
 MIN_COUNTERS = {"quick": {"returned": 40}, "thorough": {"returned": 600}}
 REQUIRED_CLASSES = ["clash"]
